@@ -1,1 +1,164 @@
-//! Helpers of group 'access' (see GUIDE.md).
+//! Helpers of group 'access' (C23, C24, C25): identities, requests made *as a user*, the
+//! high-privilege closure, and an independent grant model that interprets the access control
+//! profile ENTRIES stored in the database (never the server's access module).
+use crate::fil::{self, MEntry, F};
+use kanidmd_lib::entry::{Entry, EntryCommitted, EntrySealed};
+use kanidmd_lib::prelude::*;
+use kanidmd_lib::verif_hooks::ident;
+use std::collections::{BTreeMap, BTreeSet};
+use std::sync::Arc;
+
+pub type SEntry = Arc<Entry<EntrySealed, EntryCommitted>>;
+
+pub fn uuid_filter_all(u: Uuid) -> Filter<FilterInvalid> {
+    Filter::new(f_eq(Attribute::Uuid, PartialValue::Uuid(u)))
+}
+
+/// Identity of the stored entry `u` with the given scope (memberof is taken from the stored entry,
+/// exactly as the server does when it builds an identity from an account entry).
+pub fn ident_of<'a, T: QueryServerTransaction<'a>>(txn: &mut T, u: Uuid, readwrite: bool) -> Result<Identity, OperationError> {
+    let e = txn.internal_search_uuid(u)?;
+    Ok(if readwrite {
+        ident::user_readwrite(e)
+    } else {
+        ident::user_readonly(e)
+    })
+}
+
+/// A modify request made as `ident` on exactly the entry `target` (external-style: hidden entries
+/// are masked from the executed filter, the original filter is what access control sees).
+pub fn modify_as(w: &mut QueryServerWriteTransaction<'_>, ident: &Identity, target: Uuid, mods: Vec<Modify>) -> Result<(), OperationError> {
+    let ml = ModifyList::new_list(mods);
+    let me = ModifyEvent::from_internal_parts(ident.clone(), &ml, &uuid_filter_all(target), w)?;
+    w.modify(&me)
+}
+
+/// The outcome classes of a write attempt that the checks distinguish.
+#[derive(Debug, Clone, Copy, PartialEq, Eq, PartialOrd, Ord)]
+pub enum WriteOutcome {
+    /// the operation was applied
+    Applied,
+    /// refused by the write access decision
+    Denied,
+    /// the target is not visible to the caller (search access), so nothing was attempted
+    NotVisible,
+    /// any other error (schema, plugin, ...): reached code behind the access decision or failed before it
+    Other,
+}
+
+pub fn classify<T>(r: &Result<T, OperationError>) -> WriteOutcome {
+    match r {
+        Ok(_) => WriteOutcome::Applied,
+        Err(OperationError::AccessDenied) | Err(OperationError::NotAuthorised) => WriteOutcome::Denied,
+        Err(OperationError::NoMatchingEntries) => WriteOutcome::NotVisible,
+        Err(_) => WriteOutcome::Other,
+    }
+}
+
+/// Plain-data view of all stored entries (attribute -> proto strings).
+pub fn mentries(entries: &[SEntry]) -> Vec<MEntry> {
+    entries.iter().map(|e| MEntry::from_entry(e)).collect()
+}
+
+fn uuids_of(m: &MEntry, attr: &str) -> Vec<Uuid> {
+    m.get(attr)
+        .map(|vs| vs.iter().filter_map(|s| Uuid::parse_str(s).ok()).collect())
+        .unwrap_or_default()
+}
+
+pub fn has_class(m: &MEntry, c: &str) -> bool {
+    m.get("class").map(|s| s.contains(c)).unwrap_or(false)
+}
+
+pub fn is_live(m: &MEntry) -> bool {
+    !has_class(m, "recycled") && !has_class(m, "tombstone")
+}
+
+/// Everything that is (directly or transitively) a member of `root`: BFS over the stored
+/// `member` and `dynmember` edges of live groups. `root` itself is included only if it is reachable
+/// from itself. Independent of the server's memberof attribute.
+pub fn member_closure(all: &[MEntry], root: Uuid) -> BTreeSet<Uuid> {
+    let by: BTreeMap<Uuid, &MEntry> = all.iter().filter(|m| is_live(m)).map(|m| (m.uuid, m)).collect();
+    let mut seen = BTreeSet::new();
+    let mut todo = vec![root];
+    while let Some(g) = todo.pop() {
+        let Some(m) = by.get(&g) else { continue };
+        if !has_class(m, "group") {
+            continue;
+        }
+        for c in uuids_of(m, "member").into_iter().chain(uuids_of(m, "dynmember")) {
+            if by.contains_key(&c) && seen.insert(c) {
+                todo.push(c);
+            }
+        }
+    }
+    seen
+}
+
+/// Groups (transitively) containing `who`, by BFS over stored member/dynmember edges.
+pub fn groups_of(all: &[MEntry], who: Uuid) -> BTreeSet<Uuid> {
+    let live: Vec<&MEntry> = all.iter().filter(|m| is_live(m) && has_class(m, "group")).collect();
+    let mut out = BTreeSet::new();
+    let mut todo = vec![who];
+    while let Some(x) = todo.pop() {
+        for g in &live {
+            if (uuids_of(g, "member").contains(&x) || uuids_of(g, "dynmember").contains(&x)) && out.insert(g.uuid) {
+                todo.push(g.uuid);
+            }
+        }
+    }
+    out
+}
+
+pub fn name_of(m: &MEntry) -> String {
+    m.get("name").and_then(|s| s.iter().next().cloned()).unwrap_or_else(|| m.uuid.to_string())
+}
+
+// ---------------------------------------------------------------------------------------------
+// Grant model (C23 / C24): interpretation of the stored access control profile entries.
+// ---------------------------------------------------------------------------------------------
+
+/// Translation of the JSON text of a stored `acp_targetscope` (proto filter) into the harness AST.
+pub fn f_of_proto_json(v: &serde_json::Value) -> Option<F> {
+    let o = v.as_object()?;
+    if o.len() != 1 {
+        if v.as_str() == Some("self") {
+            return Some(F::SelfUuid);
+        }
+        return None;
+    }
+    let (k, body) = o.iter().next()?;
+    let pair = |b: &serde_json::Value| -> Option<(String, String)> {
+        let a = b.as_array()?;
+        Some((a.first()?.as_str()?.to_lowercase(), a.get(1)?.as_str()?.to_string()))
+    };
+    Some(match k.as_str() {
+        "eq" => {
+            let (a, v) = pair(body)?;
+            F::Eq(a, v)
+        }
+        "cnt" => {
+            let (a, v) = pair(body)?;
+            F::Cnt(a, v)
+        }
+        "pres" => F::Pres(body.as_str()?.to_lowercase()),
+        "or" => F::Or(body.as_array()?.iter().map(f_of_proto_json).collect::<Option<Vec<_>>>()?),
+        "and" => F::And(body.as_array()?.iter().map(f_of_proto_json).collect::<Option<Vec<_>>>()?),
+        "andnot" => F::Not(Box::new(f_of_proto_json(body)?)),
+        "self" => F::SelfUuid,
+        _ => return None,
+    })
+}
+
+pub fn f_of_proto_str(s: &str) -> Option<F> {
+    if s.trim() == "\"self\"" {
+        return Some(F::SelfUuid);
+    }
+    let v: serde_json::Value = serde_json::from_str(s).ok()?;
+    if v.as_str() == Some("self") {
+        return Some(F::SelfUuid);
+    }
+    f_of_proto_json(&v)
+}
+
+pub use fil::eval as eval_filter;
